@@ -16,7 +16,9 @@ import json
 import re
 
 U = "-"
-PLATS = ["default", "p1"]
+PLATS = ["default", "p1", "p2"]      # p2 does not exist initially: it is created on demand by the platform-variable setters
+INIT_PLATS = ["default", "p1"]
+ACTIVE = ["default", "p1"]            # platforms a live object is constructed for
 
 WORLDS = {
     # name of c1 is a proper prefix of the name of c2 (re.match is a prefix match)
@@ -37,7 +39,12 @@ ARGS = {"L": "lit", "R": "%(v)s", "P": "%(replica)s"}
 ARGS_BACK = {v: k for k, v in ARGS.items()}
 NP = {"1": 1, "2": 2, "R": "%(v)s", "X": "abc"}
 NP_BACK = {"1": "1", "2": "2", "%(v)s": "R", "abc": "X"}
-TEMPLATES = {"T1": (U, "R", U), "T2": ("2", "L", "R"), "T3": ("1", "R", "2"), "T4": (U, "P", U), "T5": (U, "L", "X")}
+RI = {"0": 0, "5": 5}
+RI_BACK = {"0": "0", "5": "5"}
+IP = {"B": "bash"}
+# template -> (cv, args, np, ri, srep, ip); srep (the stored isRepeat) is never given by a caller
+TEMPLATES = {"T1": (U, "R", U, U, U, U), "T2": ("2", "L", "R", U, U, U), "T3": ("1", "R", "2", U, U, U),
+             "T4": (U, "P", U, U, U, U), "T5": (U, "L", "X", U, U, U), "T6": (U, "L", U, "5", U, "B")}
 FLAVOURS = {
     "full": dict(raw=False, include_default=True),
     "raw": dict(raw=True, include_default=True),
@@ -49,9 +56,14 @@ FLAVOURS = {
 }
 KINDS = {"FlowIRComponentUnknown": "ComponentUnknown", "FlowIRVariableUnknown": "VariableUnknown",
          "FlowIRFailedComponentConvertType": "ConvertError", "FlowIRComponentExists": "ComponentExists",
-         "KeyError": "KeyError"}
-KNOWN_DEVIATIONS = {"unescaped-component-name-in-invalidation-regex", "lenient-query-result-cached-for-strict-queries"}
-COMP_SCOPED = {"SetCompVar", "DelCompVar", "SetArgs", "SetNp", "DelNp", "ReplaceComp", "DeleteComp"}
+         "KeyError": "KeyError", "FlowIRPlatformUnknown": "PlatformUnknown"}
+KNOWN_DEVIATIONS = {"unescaped-component-name-in-invalidation-regex", "lenient-query-result-cached-for-strict-queries",
+                    "derived-isRepeat-frozen-outside-fully-resolved-queries",
+                    "platform-created-through-global-variable-lacks-stages-scope"}
+COMP_SCOPED = {"SetCompVar", "DelCompVar", "SetArgs", "SetNp", "DelNp", "SetRi", "DelRi", "SetIp", "DelIp", "ReplaceComp", "DeleteComp"}
+OPTION_ROUTE = {"SetArgs": "#command.arguments", "SetNp": "#resourceRequest.numberProcesses", "DelNp": "#resourceRequest.numberProcesses",
+                "SetRi": "#workflowAttributes.repeatInterval", "DelRi": "#workflowAttributes.repeatInterval",
+                "SetIp": "#command.interpreter", "DelIp": "#command.interpreter"}
 
 
 def has_meta(name):
@@ -71,63 +83,94 @@ class World:
         self.node = {l: "stage%d.%s" % self.cid[l] for l in self.labels}
 
     # -- state codes ----------------------------------------------------------------------
+    def make_code(self, gv, sv, comps):
+        """gv/sv: per initial platform (default, p1) the value of v globally / in every stage; p2 does not exist"""
+        n = len(self.stage_seq)
+        d = "".join("K" + gv[i] + sv[i] * n for i in range(len(INIT_PLATS))) + (U + U + "#" * n) * (len(PLATS) - len(INIT_PLATS))
+        return "%s|%s|%s|N" % (d, comps, "0" * (len(self.labels) * len(PLATS)))
+
+    def base_code(self, b):
+        """the base descriptions Base(b) of ConfigCache.tla (checked against TLC's initial states by the driver)"""
+        return {0: self.make_code("1-", "--", "P-R----P-R----"),
+                1: self.make_code("11", "2-", "P1R2---A-L----"),
+                2: self.make_code("--", "--", "P1RR5T-P-LX--B")}[b]
+
+    def plain_code(self):
+        return self.make_code("1-", "--", "P-L----P-L----")
+
     def decode(self, code):
-        """'1---|P-R-P-R-|0000|N' -> dict(gv, sv, comp, cache(set of (label, platform)), handed)"""
+        """'K1-K----#|P-R----P-R----|000000|N' -> dict(kn, gv, sv, comp, cache(set of (label, platform)), handed)"""
         d, c, k, h = code.split("|")
-        n = 1 + len(self.stage_seq)
-        gv, sv = {}, {}
+        n = 2 + len(self.stage_seq)
+        kn, gv, sv = {}, {}, {}
         for i, p in enumerate(PLATS):
-            gv[p] = d[i * n]
-            sv[p] = {s: d[i * n + 1 + j] for j, s in enumerate(self.stage_seq)}
+            kn[p] = d[i * n] == "K"
+            gv[p] = d[i * n + 1]
+            sv[p] = {s: d[i * n + 2 + j] for j, s in enumerate(self.stage_seq)}
         comp = {}
         for i, l in enumerate(self.labels):
-            comp[l] = c[4 * i:4 * i + 4]
+            comp[l] = c[7 * i:7 * i + 7]
         cache = set()
         for i, l in enumerate(self.labels):
             for j, p in enumerate(PLATS):
                 if k[i * len(PLATS) + j] == "1":
                     cache.add((l, p))
-        return {"gv": gv, "sv": sv, "comp": comp, "cache": cache, "handed": h}
+        return {"kn": kn, "gv": gv, "sv": sv, "comp": comp, "cache": cache, "handed": h}
 
-    def render_component(self, label, cv, args, np):
+    def render_component(self, label, cv, args, np, ri=U, srep=U, ip=U):
         st, name = self.cid[label]
         c = {"name": name, "stage": st, "command": {"executable": "echo", "arguments": ARGS[args]},
-             "variables": {}, "resourceRequest": {}}
+             "variables": {}, "resourceRequest": {}, "workflowAttributes": {}}
         if cv != U:
             c["variables"]["v"] = cv
         if np != U:
             c["resourceRequest"]["numberProcesses"] = NP[np]
+        if ri != U:
+            c["workflowAttributes"]["repeatInterval"] = RI[ri]
+        if srep != U:
+            c["workflowAttributes"]["isRepeat"] = srep == "T"
+        if ip != U:
+            c["command"]["interpreter"] = IP[ip]
         return c
 
     def render(self, code):
         st = self.decode(code)
         variables = {}
         for p in PLATS:
-            g = {"k": "K"}
+            if not st["kn"][p]:
+                continue
+            g = {"k": "K"} if p in INIT_PLATS else {}
             if st["gv"][p] != U:
                 g["v"] = st["gv"][p]
             stages = {}
             for s in self.stage_seq:
-                stages[s] = {"k": "K"}
-                if st["sv"][p][s] != U:
-                    stages[s]["v"] = st["sv"][p][s]
+                x = st["sv"][p][s]
+                if x == "#":
+                    continue
+                stages[s] = {"k": "K"} if p in INIT_PLATS else {}
+                if x != U:
+                    stages[s]["v"] = x
             variables[p] = {"global": g, "stages": stages}
         comps = []
         for l in self.labels:
             cc = st["comp"][l]
             if cc[0] == "P":
-                comps.append(self.render_component(l, cc[1], cc[2], cc[3]))
-        return {"components": comps, "variables": variables, "platforms": list(PLATS)}
+                comps.append(self.render_component(l, *cc[1:]))
+        return {"components": comps, "variables": variables, "platforms": [p for p in PLATS if st["kn"][p]]}
 
     def project_description(self, raw):
         """real raw() -> the D part of a state code ('?' for anything the model cannot express)"""
         out = []
         variables = raw.get("variables", {})
         for p in PLATS:
-            pv = variables.get(p, {})
-            out.append(_val(pv.get("global", {}).get("v", U)))
+            pv = variables.get(p)
+            if pv is None:
+                out.append(U + U + "#" * len(self.stage_seq))
+                continue
+            out.append("K" + _val(pv.get("global", {}).get("v", U)))
             for s in self.stage_seq:
-                out.append(_val(pv.get("stages", {}).get(s, {}).get("v", U)))
+                sd = pv.get("stages", {}).get(s)
+                out.append("#" if sd is None else _val(sd.get("v", U)))
         out.append("|")
         found = {}
         for c in raw.get("components", []):
@@ -135,11 +178,14 @@ class World:
         for l in self.labels:
             c = found.get(self.cid[l])
             if c is None:
-                out.append("A-L-")
+                out.append("A-L----")
                 continue
+            wa = c.get("workflowAttributes", {})
             out.append("P" + _val(c.get("variables", {}).get("v", U))
                        + ARGS_BACK.get(c.get("command", {}).get("arguments"), "?")
-                       + _np(c.get("resourceRequest", {}).get("numberProcesses", U)))
+                       + _np(c.get("resourceRequest", {}).get("numberProcesses", U))
+                       + _ri(wa.get("repeatInterval", U)) + _rep(wa.get("isRepeat", U))
+                       + _ip(c.get("command", {}).get("interpreter", U)))
         return "".join(out)
 
     def cache_code(self, keys):
@@ -160,13 +206,36 @@ def _np(v):
     return NP_BACK.get(str(v), "?")
 
 
+def _ri(v):
+    return U if v == U or v is None else RI_BACK.get(str(v), "?")
+
+
+def _rep(v):
+    if v == U or v is None:
+        return U
+    return {True: "T", False: "F"}.get(v, "?") if isinstance(v, bool) else "?"
+
+
+def _ip(v):
+    return U if v == U or v is None else {"bash": "B"}.get(v, "?")
+
+
+def _xa(v):
+    return U if v == U or v is None else {"none": "N", "double-quote": "D"}.get(v, "?")
+
+
+NO_RESULT = {"v": U, "args": U, "np": U, "ri": U, "rep": U, "xa": U}
+
+
 def project_result(r):
-    """result dictionary of get_component_configuration -> the spec's [v, args, np]"""
+    """result dictionary of get_component_configuration -> the spec's [v, args, np, ri, rep, xa]"""
     a = r.get("command", {}).get("arguments")
     a = ARGS_BACK.get(a, a if a in ("1", "2") else "?")
     n = r.get("resourceRequest", {}).get("numberProcesses", U)
     n = U if n == U or n is None else NP_BACK.get(str(n), "?")
-    return {"v": _val(r.get("variables", {}).get("v", U)), "args": a, "np": n}
+    wa = r.get("workflowAttributes", {})
+    return {"v": _val(r.get("variables", {}).get("v", U)), "args": a, "np": n, "ri": _ri(wa.get("repeatInterval", U)),
+            "rep": _rep(wa.get("isRepeat", U)), "xa": _xa(r.get("command", {}).get("expandArguments", U))}
 
 
 def scribble(obj):
@@ -275,22 +344,23 @@ class Live:
                 conc.delete_component_variable(cid, "v")
             else:
                 conf.removeOptionForNode(node, "v")
-        elif act in ("SetArgs", "SetNp"):
-            route = "#command.arguments" if act == "SetArgs" else "#resourceRequest.numberProcesses"
-            value = ARGS[x] if act == "SetArgs" else NP[x]
+        elif act in ("SetArgs", "SetNp", "SetRi", "SetIp"):
+            route = OPTION_ROUTE[act]
+            value = {"SetArgs": ARGS, "SetNp": NP, "SetRi": RI, "SetIp": IP}[act][x]
             if how == "api":
                 conc.set_component_option(cid, route, value)
             elif how == "conf":
-                conf.setOptionForNode(node, route, str(value))
+                # repeatInterval keeps its integer type: isRepeat is derived before any type conversion
+                conf.setOptionForNode(node, route, value if act == "SetRi" else str(value))
             else:
                 d = conc.get_component(cid, return_copy=False)
                 f1, f2 = route[1:].split(".")
                 d[f1][f2] = value
-        elif act == "DelNp":
+        elif act in ("DelNp", "DelRi", "DelIp"):
             if how == "api":
-                conc.remove_component_option(cid, "#resourceRequest.numberProcesses")
+                conc.remove_component_option(cid, OPTION_ROUTE[act])
             else:
-                conf.removeOptionForNode(node, "#resourceRequest.numberProcesses")
+                conf.removeOptionForNode(node, OPTION_ROUTE[act])
         elif act == "ReplaceComp":
             conc.update_component(cid, w.render_component(c, *TEMPLATES[x]))
         elif act == "AddComp":
@@ -351,7 +421,7 @@ class Runner:
         real code with one dummy entry; used only to attribute a stale entry to the named deviation `Hits`."""
         k = (w.id, label)
         if k not in self.self_miss:
-            conc = self.FL.FlowIRConcrete(w.render("-" * (2 + 2 * len(w.stage_seq)) + "|P-L-P-L-|0000|N"), "default", {})
+            conc = self.FL.FlowIRConcrete(w.render(w.plain_code()), "default", {})
             key = "component:default:stage%s:%s" % w.cid[label]
             conc._cache[key] = {}
             try:
@@ -410,11 +480,17 @@ class Runner:
                 fkind, fres = self.from_scratch(live, rawkey, raw, a["c"], a["p"], a["x"])
                 same = (kind == fkind) and (kind != "ok" or res == fres)
                 if not same:
-                    return finding("violation", classify_query(self, w, a, kind, res, fkind, fres, steps[:i], was_cached),
-                                   "query %s returned %s but the configuration computed from scratch from the current description is %s  [history: %s]"
-                                   % (describe(a), show(kind, res), show(fkind, fres), tag), i)
-                got = dict(kind=kind, **(project_result(res) if kind == "ok" else {"v": U, "args": U, "np": U}))
-                if got != spec:
+                    key = classify_query(self, w, a, kind, res, fkind, fres, steps[:i], was_cached, raw)
+                    f = finding("violation", key,
+                                "query %s returned %s but the configuration computed from scratch from the current description is %s  [history: %s]"
+                                % (describe(a), show(kind, res), show(fkind, fres), tag), i)
+                    if key not in STATELESS_DEVIATIONS:
+                        return f
+                    # a named deviation that leaves no trace in the state: report it and go on with the history
+                    out["known"].append(out["finding"])
+                    out["finding"] = None
+                got = dict(kind=kind, **(project_result(res) if kind == "ok" else NO_RESULT))
+                if same and got != spec:
                     return finding("drift", "resolve", "query %s: real code (also from scratch) gives %s, spec Resolve gives %s [%s]"
                                    % (describe(a), got, spec, tag), i)
             else:
@@ -424,7 +500,13 @@ class Runner:
                         return finding("violation", "unescaped-component-name-in-invalidation-regex",
                                        "%s raised re.error (the component name is used un-escaped in the invalidation regular expression) [%s]"
                                        % (describe(a), tag), i)
-                    return finding("drift", "outcome", "%s: real outcome %s, spec %s [%s]" % (describe(a), kind, want, tag), i)
+                    if kind == "error:FlowIRInconsistency" and a["act"] == "InPlaceStage" and lacks_stages_scope(raw, a["p"]):
+                        finding("violation", "platform-created-through-global-variable-lacks-stages-scope",
+                                "%s raised FlowIRInconsistency: the platform was created without its stages scope [%s]" % (describe(a), tag), i)
+                        out["known"].append(out["finding"])
+                        out["finding"] = None
+                    else:
+                        return finding("drift", "outcome", "%s: real outcome %s, spec %s [%s]" % (describe(a), kind, want, tag), i)
             # (2) the description
             dcode = w.project_description(raw)
             if dcode != tcode.rsplit("|", 2)[0]:
@@ -453,7 +535,7 @@ class Runner:
                     else:
                         key = classify_stale(self, w, a, who, entry, fkind, steps[:i + 1])
                     probe = {"act": "Query", "c": who[0], "p": who[1], "st": -1, "x": "full", "how": U, "hit": True,
-                             "ret": dict(kind=fkind, **(project_result(fres) if fkind == "ok" else {"v": U, "args": U, "np": U}))}
+                             "ret": dict(kind=fkind, **(project_result(fres) if fkind == "ok" else NO_RESULT))}
                     f = finding("violation", key,
                                 "after %s the cached configuration of %s on platform %s is stale: a query returns %s, from scratch %s [%s]"
                                 % (describe(a), w.node[who[0]], who[1], show(qk, qr), show(fkind, fres), tag), i)
@@ -476,6 +558,21 @@ class Runner:
         return out
 
 
+STATELESS_DEVIATIONS = {"derived-isRepeat-frozen-outside-fully-resolved-queries",
+                        "platform-created-through-global-variable-lacks-stages-scope"}
+
+
+def lacks_stages_scope(raw, p):
+    pv = raw.get("variables", {}).get(p)
+    return isinstance(pv, dict) and "stages" not in pv
+
+
+def without_is_repeat(r):
+    r = copy.deepcopy(r)
+    r.get("workflowAttributes", {}).pop("isRepeat", None)
+    return r
+
+
 def describe(a):
     parts = [a["act"]]
     for f in ("c", "p", "x", "how"):
@@ -490,7 +587,10 @@ def show(kind, res):
     if kind != "ok":
         return kind
     p = project_result(res)
-    return "ok[v=%s args=%s np=%s]" % (p["v"], res.get("command", {}).get("arguments"), res.get("resourceRequest", {}).get("numberProcesses", U))
+    wa = res.get("workflowAttributes", {})
+    return "ok[v=%s args=%s np=%s repeatInterval=%s isRepeat=%s expandArguments=%s]" % (
+        p["v"], res.get("command", {}).get("arguments"), res.get("resourceRequest", {}).get("numberProcesses", U),
+        wa.get("repeatInterval", U), wa.get("isRepeat", U), res.get("command", {}).get("expandArguments", U))
 
 
 def classify_stale(runner, w, a, who, entry, fkind, steps):
@@ -504,7 +604,11 @@ def classify_stale(runner, w, a, who, entry, fkind, steps):
                                           ":other-component" if a.get("c", U) not in (U, who[0]) else "")
 
 
-def classify_query(runner, w, a, kind, res, fkind, fres, before, was_cached):
+def classify_query(runner, w, a, kind, res, fkind, fres, before, was_cached, raw):
+    if kind == "error:FlowIRInconsistency" and fkind != kind and lacks_stages_scope(raw, a["p"]):
+        return "platform-created-through-global-variable-lacks-stages-scope"
+    if kind == "ok" and fkind == "ok" and a["x"] not in ("full", "lenient") and without_is_repeat(res) == without_is_repeat(fres):
+        return "derived-isRepeat-frozen-outside-fully-resolved-queries"
     if was_cached:
         lenient_before = any(s["a"]["act"] == "Query" and s["a"]["x"] == "lenient" and s["a"]["c"] == a["c"] for s in before)
         if fkind == "ConvertError" and lenient_before:
